@@ -686,6 +686,36 @@ def mt_boundaries(prog, res):
     res.need(R, 6)
 
 
+def dictionary_validity_history_independent(prog, res):
+    """T14: whether the dictionary is still usable is a function of the frame (bytes consumed so far vs window size), not of
+    the context's past.  Index overflow correction, however, is triggered by ABSOLUTE table indexes, which keep growing
+    across frames of a reused context.  No statement that invalidates the match state's dictionary (loadedDictEnd = 0,
+    dictMatchState = NULL) may be control-dependent on ZSTD_window_needOverflowCorrection().  (The LDM state's sibling
+    statement in zstd_ldm.c has the same shape; its effect cannot be separated from this one through the public API and it is
+    not claimed.)"""
+    R = "T14.dictionary-validity-history-independent"
+    n = 0
+    for f in prog.all_functions():
+        if not f.file.startswith("lib/compress/"):
+            continue
+        trig = [(bid, t) for bid, cond, t, fl in f.branches()
+                if any(is_call(y, "ZSTD_window_needOverflowCorrection") for y in f.walk_resolved(f.resolve_x(cond)))]
+        if not trig:
+            continue
+        n += 1
+        drops = []
+        for b, i, x in f.events(lambda y: y.get("k") == "asg" and y.get("op") == "="):
+            l = strip_casts(x["lhs"])
+            if l.get("k") == "mem" and l.get("rec") == "ZSTD_matchState_t" and l.get("f") in ("loadedDictEnd", "dictMatchState") and const_val(x["rhs"]) == 0:
+                if all(f.must_pass(via_edges=[e], targets=[(b, i)]) for e in trig[:1]) or any(f.must_pass(via_edges=[e], targets=[(b, i)]) for e in trig):
+                    drops.append(l["f"])
+        res.check(not drops, R, f.name, f.loc, "overflow correction does not invalidate the dictionary",
+                  "%s invalidates the match state's dictionary (%s) when ZSTD_window_needOverflowCorrection() fires: the trigger depends on absolute "
+                  "indexes, i.e. on what the context compressed before, so the same calls give another frame on a long-used context" % (f.name, ", ".join(sorted(set(drops)))))
+    res.check(n >= 1, R, "sites", "lib/compress", "%d function(s) test ZSTD_window_needOverflowCorrection" % n, "no user of ZSTD_window_needOverflowCorrection found")
+    res.need(R, 2)
+
+
 def run(tier):
     res = Result("C07", tier)
     tus, info = extract(["compress", "common", "decompress", "dictBuilder"])
@@ -705,6 +735,9 @@ def run(tier):
     salt_rule(prog, res)
     purity(prog, res)
     mt_boundaries(prog, res)
+    from .C15 import cycle_log_callers        # shared clause: what overflow correction does depends only on the parameters' chainLog
+    cycle_log_callers(prog, res)
+    dictionary_validity_history_independent(prog, res)
     return res.finish(
         explanation="No field of the match state, window, optimal-parser statistics, compressed-block state, CCtx frame session "
                     "or CCtx stream session that operation code writes survives a reset unless it is on a reasoned exception "
